@@ -104,10 +104,69 @@ macro_rules! ty {
 	}};
 }
 
+/// The same component reached through the accessors of an enclosing URI/IRI (the property speaks
+/// of the components *of a valid URI/IRI*): `$get` maps the parsed reference to `Option<&Component>`.
+macro_rules! embedded {
+	($f:ident, $case:ident, $s:ident, $tag:expr, $Ref:ty, $whole:expr, |$r:ident| $get:expr) => {{
+		let whole: String = $whole;
+		match <$Ref>::new(whole.as_str()) {
+			Err(_) => $f.ok(&["C01"], concat!($tag, ".enclosing.new"), false, || json!(whole.clone())),
+			Ok($r) => {
+				let got = $f.run(C19, concat!($tag, ".accessor"), || $get);
+				if let Some(got) = got {
+					match got {
+						None => $f.ok(&["C02", "C19"], concat!($tag, ".present"), false, || json!(whole.clone())),
+						Some(v) => {
+							$f.eq(&["C02", "C19"], concat!($tag, ".text"), v.as_str(), $s);
+							let exp_bytes = bytes_of(&$case["bytes"]);
+							if let Some(p) = $f.run(C19, concat!($tag, ".as_pct_str"), || v.as_pct_str()) {
+								if let Some(b) = $f.run(C19, concat!($tag, ".bytes"), || p.bytes().collect::<Vec<u8>>()) {
+									$f.eq(C19, concat!($tag, ".bytes"), b, exp_bytes.clone());
+								}
+								let dec = $f.run(C19, concat!($tag, ".decode"), || p.decode());
+								let len = $f.run(C19, concat!($tag, ".len"), || p.len());
+								if $case["utf8"].as_bool().unwrap() {
+									let exp = text(&$case["chars"]);
+									if let Some(d) = dec {
+										$f.eq(C19, concat!($tag, ".decode"), d.as_str(), exp.as_str());
+									}
+									if let Some(l) = len {
+										$f.eq(C19, concat!($tag, ".len"), l, exp.chars().count());
+									}
+								}
+							}
+						}
+					}
+				}
+			}
+		}
+	}};
+}
+
 pub fn run(case: &Value, f: &mut Fails) {
 	let s_owned = text(&case["w"]);
 	let s = s_owned.as_str();
 	use iref::{iri, uri};
+	// inside a reference: s://{ui}@h/  s://{host}/  s:/a/{seg}/b (second segment)  s:?{q}  s:#{f}
+	match case["ty"].as_str().unwrap() {
+		"UUserInfo" => embedded!(f, case, s, "in_uri.user_info", uri::Uri, format!("s://{s}@h/p"), |r| r.authority().map(|a| a.user_info()).unwrap_or(None)),
+		"IUserInfo" => embedded!(f, case, s, "in_iri.user_info", iri::Iri, format!("s://{s}@h/p"), |r| r.authority().map(|a| a.user_info()).unwrap_or(None)),
+		"UHost" => embedded!(f, case, s, "in_uri.host", uri::Uri, format!("s://u@{s}:8/p"), |r| r.authority().map(|a| a.host())),
+		"IHost" => embedded!(f, case, s, "in_iri.host", iri::Iri, format!("s://u@{s}:8/p"), |r| r.authority().map(|a| a.host())),
+		"USegment" => {
+			embedded!(f, case, s, "in_uri.segment", uri::Uri, format!("s:/a/{s}/b"), |r| r.path().segments().nth(1));
+			embedded!(f, case, s, "in_uri.segment_back", uri::UriRef, format!("a/{s}?q"), |r| r.path().segments().next_back());
+		}
+		"ISegment" => {
+			embedded!(f, case, s, "in_iri.segment", iri::Iri, format!("s:/a/{s}/b"), |r| r.path().segments().nth(1));
+			embedded!(f, case, s, "in_iri.segment_back", iri::IriRef, format!("a/{s}?q"), |r| r.path().segments().next_back());
+		}
+		"UQuery" => embedded!(f, case, s, "in_uri.query", uri::Uri, format!("s://h/p?{s}#f"), |r| r.query()),
+		"IQuery" => embedded!(f, case, s, "in_iri.query", iri::Iri, format!("s://h/p?{s}#f"), |r| r.query()),
+		"UFragment" => embedded!(f, case, s, "in_uri.fragment", uri::Uri, format!("s://h/p?q#{s}"), |r| r.fragment()),
+		"IFragment" => embedded!(f, case, s, "in_iri.fragment", iri::Iri, format!("s://h/p?q#{s}"), |r| r.fragment()),
+		_ => {}
+	}
 	match case["ty"].as_str().unwrap() {
 		"UUserInfo" => ty!(f, case, s, uri::UserInfo, uri::UserInfoBuf),
 		"UHost" => ty!(f, case, s, uri::Host, uri::HostBuf),
